@@ -54,7 +54,7 @@ func c18server() {
 		errk := "none"
 		for _, p := range plan.reads {
 			buf := make([]byte, p)
-			c.SetReadDeadline(time.Now().Add(5 * time.Second))
+			c.SetReadDeadline(time.Now().Add(2 * time.Second))
 			n, err := ws.Read(buf)
 			if err != nil {
 				if errors.Is(err, server.ErrInvalWsMsgType) {
@@ -106,7 +106,7 @@ func c18Run(in *Sx) *Sx {
 	var obs *Sx
 	select {
 	case obs = <-plan.done:
-	case <-time.After(20 * time.Second):
+	case <-time.After(4 * time.Second):
 		obs = L(K("chunks"), K("err", A("hang")))
 	}
 	c.Close()
